@@ -17,7 +17,7 @@ def run(ctx):
     if not vc.prepare(ctx, 'C20'):
         return rep.finish({'evaluations': 0, 'distinct_nontrivial': 0, 'rule': 'harness did not build', 'samples': []}, [])
     quick = ctx.tier == 'quick'
-    n = 150 if quick else 2500
+    n = 300 if quick else 2500
     g = isogen.IsoGen(ctx.rng.fork('iso'))
     cases = []
     lines = []
